@@ -66,6 +66,10 @@ def value_of(cls, tick, budget):
         return ValueError(tag + " boom")
     if cls == "D":  # constant bytes: identical across keys and writes (dedup path)
         return "same-bytes"
+    if cls == "P":  # partition: index blob + one blob per key; key "b" has shared bytes
+        from twosigma.memento.partition import InMemoryPartition
+
+        return InMemoryPartition({"a": tag + "a", "b": "same-bytes"})
     raise HarnessError("unknown value class %r" % cls)
 
 
@@ -145,6 +149,14 @@ class StoreRun:
 
             return (isinstance(got, MementoException) and got.message == str(want)
                     and got.exception_name == "python::builtins:ValueError")
+        from twosigma.memento.partition import Partition
+
+        if isinstance(want, Partition):
+            if not isinstance(got, Partition):
+                return False
+            if list(got.list_keys()) != list(want.list_keys()):
+                return False
+            return all(got.get(k) == want.get(k) for k in want.list_keys())
         return type(got) is type(want) and got == want
 
     def check_memento(self, got, ki):
@@ -203,6 +215,10 @@ class StoreRun:
             be.memoize(override, mem, stored)
             self.mem[ki] = mem
             m.memoize(ki, self.tick, cls)
+            if self.kind == "fs" and mem.content_key is not None:
+                self.written_blobs[ki] = (mem.content_key, self.blob_bytes(mem.content_key), bool(override))
+            else:
+                self.written_blobs.pop(ki, None)
             return None
         if kind == "getm":
             ki = op[1]
@@ -277,6 +293,59 @@ class StoreRun:
             _, ki, mkey = op
             return self.check_read_metadata(be, ki, mkey)
         raise HarnessError("unknown op %r" % (op,))
+
+    # -- C07: content addressing, dedup, immutability (filesystem layout as documented) ----------
+    def blob_bytes(self, content_key):
+        with self.be._data_source.input_versioned(content_key) as f:
+            return f.read()
+
+    def integrity(self):
+        """None or (clause, description): invariants over the WHOLE data store."""
+        import hashlib
+
+        if self.kind != "fs":
+            return None
+        cdir = os.path.join(self.dpath, "c")
+        per_hash = {}
+        vdir = os.path.join(cdir, ".versions")
+        if os.path.isdir(vdir):
+            for u in sorted(os.listdir(vdir)):
+                for name in sorted(os.listdir(os.path.join(vdir, u))):
+                    if ".meta." in name:
+                        continue
+                    with open(os.path.join(vdir, u, name), "rb") as f:
+                        b = f.read()
+                    if hashlib.sha256(b).hexdigest() != name:
+                        return ("content-hash", "object c/.versions/%s/%s does not hash to its key" % (u, name[:12]))
+                    per_hash.setdefault(name, []).append(u)
+        for h, us in per_hash.items():
+            if len(us) > 1:
+                return ("dedup", "%d stored objects for content key %s" % (len(us), h[:12]))
+        if os.path.isdir(cdir):
+            for name in sorted(os.listdir(cdir)):
+                if not name.endswith(".link"):
+                    continue
+                with open(os.path.join(cdir, name)) as f:
+                    target = f.read()
+                h = name[:-5]
+                if not os.path.isfile(target):
+                    return ("link-dangling", "link c/%s names a missing object" % name[:17])
+                with open(target, "rb") as f:
+                    if hashlib.sha256(f.read()).hexdigest() != h:
+                        return ("link-hash", "link c/%s names bytes that do not hash to it" % name[:17])
+        # immutability: every live memento still reads exactly the bytes stored when it was created
+        for ki, (ck, b0, overridden) in self.written_blobs.items():
+            if not self.model.live(ki):
+                continue
+            try:
+                b1 = self.blob_bytes(ck)
+            except OSError as e:
+                return ("immutable", "bytes of live memento %s/%s are gone: %r" % (*self.keys[ki], e))
+            if b1 != b0:
+                return ("immutable", "bytes under the content key of live memento %s/%s changed" % self.keys[ki])
+            if not overridden and ck.key != "c/" + hashlib.sha256(b0).hexdigest():
+                return ("content-key", "content key %s is not derived from the SHA-256 of the bytes" % (ck.key[:20],))
+        return None
 
     # -- whole-state comparisons (used by ops and by the probe) -----------------------------------
     def check_list_functions(self, be):
@@ -431,3 +500,146 @@ class StoreRun:
         model = norm(repr(self.model.canon(lambda t: "T%d" % tr[t])))
         held = tuple(sorted(self.mem))
         return (real, model, held)
+
+
+# ---------------------------------------------------------------------------------------------
+# BFS plumbing shared by C05 / C07
+# ---------------------------------------------------------------------------------------------
+
+_roots = {}
+
+
+def scratch_store(tag="st"):
+    from .core import scratch_dir
+
+    pid = os.getpid()
+    if (pid, tag) not in _roots:
+        _roots[(pid, tag)] = os.path.join(scratch_dir(tag), "store")
+    return _roots[(pid, tag)]
+
+
+def alphabet(profile, keys, classes, small=False):
+    ops = []
+    k2 = 2 % len(keys)
+    for ki in range(len(keys)):
+        for c in classes:
+            ops.append(("memo", ki, c, None))
+        ops.append(("getm", ki))
+        ops.append(("read", ki))
+        ops.append(("ism", ki))
+        ops.append(("fc", ki))
+    if not small:
+        ops.append(("memo", 0, "s", "k1"))
+        ops.append(("memo", k2, "t", "k1"))
+        ops.append(("memo", 0, "N", "k1"))
+        if profile == "c07":
+            ops.append(("memo", k2, "D", "k1"))
+            ops.append(("memo", 0, "P", "k1"))
+        ops.append(("wmeta", 0, "log", False))
+        ops.append(("wmeta", 0, "log", True))
+        ops.append(("wmeta", k2, "log", False))
+        ops.append(("rmeta", 0, "log"))
+        ops.append(("isall", (0, k2)))
+    for sym in sorted({s for s, _ in keys}):
+        ops.append(("ff", sym))
+        if profile != "c07":
+            ops.append(("lsm", sym))
+    if profile != "c07":
+        ops.append(("lsm", keys[0][0], 1))
+        ops.append(("lsf",))
+    ops.append(("fe",))
+    return ops
+
+
+def build(cfg, hist):
+    profile, backend, keys, classes, small, depth, seed = cfg
+    run = StoreRun(backend, scratch_store(profile), keys)
+    for op in hist:
+        run.step(op)
+    return run
+
+
+_BK = {"mem": "memory", "fs": "fs", "fs+m": "fs", "fsc4": "fs+cache", "fsc4+m": "fs+cache", "fsc64": "fs+cache"}
+
+
+def signature(cfg, op, clause, hist):
+    o = op[0]
+    if o == "memo":
+        o += ":" + op[2] + ("+override" if op[3] else "")
+    prev = "init"
+    if hist:
+        prev = hist[-1][0] + ((":" + str(hist[-1][2]) + ("+override" if hist[-1][3] else "")) if hist[-1][0] == "memo" else "")
+    return "%s|%s|after:%s|%s" % (_BK[cfg[1]], o, prev, clause)
+
+
+def expand(cfg, hist):
+    profile, backend, keys, classes, small, depth, seed = cfg
+    out = []
+
+    def viol(op, clause, what, h, probe=False):
+        sig = signature(cfg, op, clause, h[:-1] if probe else h)
+        full = list(h) if probe else list(h) + [op]
+        out.append((op if not probe else ("probe",), None,
+                    (sig, what + "\nbackend=%s history: %s" % (backend, full),
+                     {"profile": profile, "backend": backend, "keys": keys, "history": [list(o) for o in full], "probe": probe}), None))
+
+    run = build(cfg, hist)
+    bad = run.probe()
+    if bad:
+        viol(hist[-1] if hist else ("init",), bad[0], bad[1], hist, probe=True)
+        return out
+    if len(hist) >= depth:
+        return out
+    ops = alphabet(profile, keys, classes, small)
+    if seed:
+        import random
+
+        random.Random(seed).shuffle(ops)
+    for op in ops:
+        run = build(cfg, hist)
+        bad = run.step(op)
+        if not bad and profile == "c07":
+            bad = run.integrity()
+        if bad:
+            viol(op, bad[0], bad[1], hist)
+            continue
+        k = run.canon()
+        from . import bfs as vbfs
+
+        out.append((op, vbfs.digest(k), None, "%s:%s" % (backend, vbfs.digest(k[0])[:10])))
+    return out
+
+
+def run_configs(ctx, cfgs):
+    from . import bfs as vbfs
+
+    per = []
+    for cfg in cfgs:
+        init = vbfs.digest(build(cfg, ()).canon())
+        label = "%s keys=%d classes=%s depth=%d" % (cfg[1], len(cfg[2]), "".join(cfg[3]), cfg[5])
+        r = vbfs.explore(expand, cfg, init, max_depth=cfg[5] + 1, label=label)
+        r["caps"] = [c for c in r["caps"] if "depth cap" not in c]  # the depth is the stated bound
+        ctx.merge([r])
+        per.append({"config": label, "states": r["states"], "transitions": r["transitions"],
+                    "frontier_per_level": r["per_level"]})
+    ctx.extra["configs"] = per
+    ctx.extra["bound"] = "operation histories to the depth given per config; every state at that depth is still probed"
+    ctx.count(evaluations=ctx.transitions)
+
+
+def replay_history(art):
+    a = art["artefact"]
+    keys = [tuple(k) for k in a["keys"]]
+    hist = [tuple(tuple(x) if isinstance(x, list) else x for x in o) for o in a["history"]]
+    run = StoreRun(a["backend"], scratch_store("replay"), keys)
+    bad = None
+    for op in hist:
+        bad = run.step(op)
+        if not bad and a.get("profile") == "c07":
+            bad = run.integrity()
+        print(op, "->", bad)
+    if not bad:
+        bad = run.probe()
+        print("probe ->", bad)
+    print("REPLAY property=%s result=%s" % (art["property"], bad))
+    return 1 if bad else 0
